@@ -111,12 +111,15 @@ impl<'a> IndexPlanner<'a> {
             }
         }
 
-        // Equality
-        if kinds.contains(IndexKind::ZONE_XOR_INDEX) {
-            return IndexStrategy::ZoneXorIndex { field };
-        }
-        if kinds.contains(IndexKind::XOR_FIELD_FILTER) {
-            return IndexStrategy::XorPresence { field };
+        // Equality: membership filters can only answer `=`. Any other operator
+        // (e.g. `!=`) must scan, otherwise the XOR pruner declines and no zone is read.
+        if matches!(operation, Some(CompareOp::Eq)) {
+            if kinds.contains(IndexKind::ZONE_XOR_INDEX) {
+                return IndexStrategy::ZoneXorIndex { field };
+            }
+            if kinds.contains(IndexKind::XOR_FIELD_FILTER) {
+                return IndexStrategy::XorPresence { field };
+            }
         }
 
         IndexStrategy::FullScan
